@@ -1383,8 +1383,8 @@ fn build_moov_box(
 ) -> Vec<u8> {
     // Calculate duration in media timescale, then convert to movie timescale (ms)
     let video_duration_media = video_tables.total_duration();
-    let video_duration_ms =
-        (video_duration_media * MOVIE_TIMESCALE as u64 / MEDIA_TIMESCALE as u64) as u32;
+    let video_duration_ms = (u128::from(video_duration_media) * u128::from(MOVIE_TIMESCALE)
+        / u128::from(MEDIA_TIMESCALE)) as u64;
 
     let mvhd_payload = build_mvhd_payload(video_duration_ms);
     let mvhd_box = build_box(b"mvhd", &mvhd_payload);
@@ -2229,11 +2229,21 @@ fn build_mdhd_box_with_timescale_and_duration(
     language: Option<&str>,
 ) -> Vec<u8> {
     let mut payload = Vec::new();
-    payload.extend_from_slice(&0u32.to_be_bytes()); // version + flags
-    payload.extend_from_slice(&0u32.to_be_bytes()); // creation_time
-    payload.extend_from_slice(&0u32.to_be_bytes()); // modification_time
-    payload.extend_from_slice(&timescale.to_be_bytes());
-    payload.extend_from_slice(&(duration as u32).to_be_bytes()); // duration
+    if duration > u64::from(u32::MAX) {
+        // Version 1 carries 64-bit times: recordings longer than 2^32 ticks
+        // (13.25 h at 90 kHz) must not wrap the declared duration.
+        payload.extend_from_slice(&0x0100_0000_u32.to_be_bytes()); // version 1 + flags
+        payload.extend_from_slice(&0u64.to_be_bytes()); // creation_time
+        payload.extend_from_slice(&0u64.to_be_bytes()); // modification_time
+        payload.extend_from_slice(&timescale.to_be_bytes());
+        payload.extend_from_slice(&duration.to_be_bytes()); // duration
+    } else {
+        payload.extend_from_slice(&0u32.to_be_bytes()); // version + flags
+        payload.extend_from_slice(&0u32.to_be_bytes()); // creation_time
+        payload.extend_from_slice(&0u32.to_be_bytes()); // modification_time
+        payload.extend_from_slice(&timescale.to_be_bytes());
+        payload.extend_from_slice(&(duration as u32).to_be_bytes()); // duration
+    }
     payload.extend_from_slice(&encode_language_code(language.unwrap_or("und"))); // language
     payload.extend_from_slice(&0u16.to_be_bytes()); // pre_defined
     build_box(b"mdhd", &payload)
@@ -2315,13 +2325,22 @@ fn build_ftyp_box() -> Vec<u8> {
     build_box(b"ftyp", &payload)
 }
 
-fn build_mvhd_payload(duration_ms: u32) -> Vec<u8> {
+fn build_mvhd_payload(duration_ms: u64) -> Vec<u8> {
     let mut payload = Vec::new();
-    payload.extend_from_slice(&0u32.to_be_bytes()); // version + flags
-    payload.extend_from_slice(&0u32.to_be_bytes()); // creation_time
-    payload.extend_from_slice(&0u32.to_be_bytes()); // modification_time
-    payload.extend_from_slice(&MOVIE_TIMESCALE.to_be_bytes()); // timescale (1000 = ms)
-    payload.extend_from_slice(&duration_ms.to_be_bytes()); // duration in ms
+    if duration_ms > u64::from(u32::MAX) {
+        // Version 1 carries 64-bit times (see build_mdhd_box_with_timescale_and_duration).
+        payload.extend_from_slice(&0x0100_0000_u32.to_be_bytes()); // version 1 + flags
+        payload.extend_from_slice(&0u64.to_be_bytes()); // creation_time
+        payload.extend_from_slice(&0u64.to_be_bytes()); // modification_time
+        payload.extend_from_slice(&MOVIE_TIMESCALE.to_be_bytes()); // timescale (1000 = ms)
+        payload.extend_from_slice(&duration_ms.to_be_bytes()); // duration in ms
+    } else {
+        payload.extend_from_slice(&0u32.to_be_bytes()); // version + flags
+        payload.extend_from_slice(&0u32.to_be_bytes()); // creation_time
+        payload.extend_from_slice(&0u32.to_be_bytes()); // modification_time
+        payload.extend_from_slice(&MOVIE_TIMESCALE.to_be_bytes()); // timescale (1000 = ms)
+        payload.extend_from_slice(&(duration_ms as u32).to_be_bytes()); // duration in ms
+    }
     payload.extend_from_slice(&0x0001_0000_u32.to_be_bytes()); // rate (1.0)
     payload.extend_from_slice(&0x0100u16.to_be_bytes()); // volume (1.0)
     payload.extend_from_slice(&0u16.to_be_bytes()); // reserved
